@@ -1,4 +1,5 @@
 """C01 property-level bounded stand-in: UVL round trip."""
+import copy
 from standin.props.roundtrip import *
 from flamapy.metamodels.fm_metamodel.transformations import UVLWriter, UVLReader
 
@@ -53,6 +54,16 @@ def main():
     run = Run('C01')
     quick = run.scope == 'quick'
     rng = run.rng
+    # several relations of the same kind side by side under one parent: each stays a relation of its own
+    leaf = lambda n: {'name': n, 'relations': []}
+    for (mn, mx) in [(1, 1), (1, 2), (0, 1), (2, 2), (0, 2), (1, -1), (0, -1)]:
+        for shape in range(3):
+            g1 = {'min': mn, 'max': mx, 'children': [leaf('A1'), leaf('A2')]}
+            g2 = {'min': mn, 'max': mx, 'children': [leaf('B1'), leaf('B2')]}
+            g3 = {'min': mn, 'max': mx, 'children': [leaf('C1'), {'name': 'C2', 'relations': [dict(g2, children=[leaf('D1'), leaf('D2')])]}]}
+            rels = [[g1, g2], [g1, {'min': 0, 'max': 1, 'children': [leaf('O')]}, g2, g3], [{'min': 1, 'max': 1, 'children': [leaf('M')]}, g3, g1]][shape]
+            cycles(run, 'UVL', {'root': {'name': 'Root', 'relations': copy.deepcopy(rels)}, 'ctcs': []}, UVLWriter, UVLReader, n=3, suffix='.uvl',
+                   check_types=True, ctc_names=False, known=known_region)
     for k in range(300 if quick else 4000):
         d = uvl_fragment(rng, rng.randint(1, 12))
         names = [f['name'] for f, _, _ in d_features(d)]
@@ -65,7 +76,7 @@ def main():
         if k % 2 == 0:
             d = with_hostile_names(d, rng, UVL_HOSTILE)
         cycles(run, 'UVL', d, UVLWriter, UVLReader, n=3, suffix='.uvl', check_types=True, ctc_names=False, known=known_region)
-    run.finish('random models of the UVL fragment (mandatory / optional / or / alternative / [a..b] / [a..*] relations mixed under one parent, typed '
+    run.finish('two and three relations of one kind side by side under one parent (every group kind); random models of the UVL fragment (mandatory / optional / or / alternative / [a..b] / [a..*] relations mixed under one parent, typed '
                'features, feature cardinalities, abstract flags, attribute values None/bool/int/float/str/list/nested map), logical constraints up to '
                'depth 3 plus comparisons / arithmetic / two-argument sum, avg; every second model with hostile names (keywords, leading digit / '
                'underscore, spaces, non-ASCII, operator words); 3 cycles')
